@@ -29,3 +29,26 @@ func TestDenyCoversKeysContainingStar(t *testing.T) {
 		t.Fatalf("Deny on bkt/* does not cover key %q: request allowed", "*x")
 	}
 }
+
+// A policy for bucket "mybucket" must not be accepted when a resource names another bucket
+// that merely starts with the same characters.
+func TestResourceOutsideBucketRefused(t *testing.T) {
+	doc := []byte(`{"Statement":[{"Effect":"Allow","Principal":"*","Action":"s3:GetObject","Resource":"arn:aws:s3:::mybucket2/*"}]}`)
+	if err := auth.ValidatePolicyDocument(doc, "mybucket", auth.NewIAMServiceSingle(auth.Account{Access: "root"})); err == nil {
+		t.Fatalf("policy for bucket mybucket with resource mybucket2/* was accepted")
+	}
+}
+
+// Action/resource kind mismatch must be refused whatever order the actions are visited in.
+func TestActionResourceMismatchRefusedInEveryOrder(t *testing.T) {
+	doc := []byte(`{"Statement":[{"Effect":"Allow","Principal":"*","Action":["s3:*","s3:GetObject"],"Resource":"arn:aws:s3:::mybucket"}]}`)
+	accepted := 0
+	for i := 0; i < 300; i++ {
+		if err := auth.ValidatePolicyDocument(doc, "mybucket", auth.NewIAMServiceSingle(auth.Account{Access: "root"})); err == nil {
+			accepted++
+		}
+	}
+	if accepted != 0 {
+		t.Fatalf("object action s3:GetObject on a bucket-only resource was accepted in %d of 300 runs (depends on map iteration order)", accepted)
+	}
+}
